@@ -133,6 +133,17 @@ CHECKS["C04"] = dict(
     ref="DESIGN.md section 4, C04",
 )
 
+CHECKS["C05"] = dict(
+    category="exploration",
+    technique="bounded-exhaustive enumeration of programs incl. complete type grids at the front end's fence, with a safety oracle (no failure after the AST gate, at both optimisation levels)",
+    text="All program families plus complete grids over operator x type x type, assignment/initialisation/return/call between every "
+         "pair of types, every constructor argument list up to 4 arguments, every element-selection form on every type, ++/-- and every "
+         "statement form with a condition of every type: whatever the front end accepts must lower, pass the IR passes at both "
+         "optimisation levels, link and run on type-correct inputs without an internal failure.",
+    note="Trusted: classification of a failure as 'after the gate' by the file of its innermost nsl frame (R2). Only crash freedom is judged here, not values.",
+    ref="DESIGN.md section 4, C05",
+)
+
 PENDING = {}
 
 
